@@ -27,7 +27,7 @@ from common import CORPUS_DIR, InfraError, call
 
 RULE = ("histories of 2..12 operations: public mutators (translate_rotate on scenario / obstacle / prediction / network / "
         "lanelet level, setters of prediction shape / trajectory / wheelbase / assignments, obstacle initial_state / prediction / "
-        "update_prediction / update_initial_state with bounds 1..4 and the default, add_lanelet / remove_lanelet with and without "
+        "update_prediction / update_initial_state with bounds 1..4 and the default, add_lanelet / add_lanelets_from_network / remove_lanelet with and without "
         "rtree, convert_to_2d, deepcopy, pickle, cycle_elements / time_offset / active setters, replacing a light's cycle) "
         "interleaved with queries (occupancy_at_time at / after the initial step, prediction.occupancy_at_time_step, state_at_time, "
         "history lists, find_lanelet_by_position / by_shape at places the lanelets occupy now and occupied before, lanelet polygon / "
@@ -61,14 +61,14 @@ ROWS = [
     ("laneletPolygon", "netTranslateRotate"), ("laneletPolygon", "netConvert2d"),
     ("laneletDistance", "netTranslateRotate"), ("laneletDistance", "netConvert2d"),
     ("laneletInnerDistance", "netTranslateRotate"), ("laneletInnerDistance", "netConvert2d"),
-    ("networkIndex", "netAddLanelet"), ("networkIndex", "netRemoveLanelet"), ("networkIndex", "netTranslateRotate"),
+    ("networkIndex", "netAddLanelet"), ("networkIndex", "netAddFromNetwork"), ("networkIndex", "netRemoveLanelet"), ("networkIndex", "netTranslateRotate"),
     ("networkIndex", "netConvert2d"), ("networkIndex", "netDeepcopy"), ("networkIndex", "netPickle"),
     ("cycleInit", "cycSetElements"), ("cycleInit", "cycSetOffset"), ("cycleInit", "cycSetActive"),
 ]
 REQUIRED_BUCKETS = [f"row/{i}/{m}" for i, m in ROWS] + [
     "fam/obs", "fam/net", "fam/lan", "fam/cyc", "wrap/scenario", "wrap/light", "obs/static", "obs/setbased", "obs/new-pred-queried",
     "hist/truncated", "hist/not-truncated", "hist/m=1", "hist/default-bound", "hist/bad-bound", "net/3d", "net/rtree-false",
-    "net/by-shape", "net/old-place", "lan/3d", "lan/3d-move-raises", "cyc/replace", "cyc/length-change"]
+    "net/by-shape", "net/old-place", "net/add-from-refused", "lan/3d", "lan/3d-move-raises", "cyc/replace", "cyc/length-change"]
 
 TOL = 1e-9
 
@@ -394,6 +394,19 @@ def gen_obs(ctx):
         return qs
 
     ops = case["ops"]
+    if dynamic and r.random() < 0.12:
+        # a burst of updates with a small bound: the history is cut again and again
+        m = r.choice([1, 2, 3])
+        for i in range(r.randint(m + 1, m + 4)):
+            t0 += 1
+            ops.append(["update", g_state(r, t0), r.choice([0, 1, 2, 3]), r.choice([0, 5, 6]), r.choice([0, 7]), m])
+            if r.random() < 0.3:
+                ops.append(["tr", *g_motion_nz(r), "obstacle"])
+            if r.random() < 0.5 or i >= m:
+                ops.append(["q_hist"])
+        ops.append(["q_occ", t0])
+        case["ops"] = ops[:14]
+        return case
     ops += queries()
     for _ in range(r.choice([1, 2, 2, 3, 4])):
         kinds = ["tr", "tr", "set_init", "set_shape"]
@@ -423,10 +436,10 @@ def gen_obs(ctx):
                 t0, pred = t0n, None
                 n_upd += 1
         elif k == "p_shape":
-            pred["shape"] = g_shape(r)
+            pred = dict(pred, shape=g_shape(r))        # (a copy: the dict is also part of the case / of an earlier operation)
             ops.append(["p_shape", pred["shape"]])
         elif k == "p_traj":
-            pred["traj"] = g_traj(r, pred["traj"]["t0"] + r.choice([0, 0, 1]))
+            pred = dict(pred, traj=g_traj(r, pred["traj"]["t0"] + r.choice([0, 0, 1])))
             ops.append(["p_traj", pred["traj"]])
         elif k == "p_wb":
             ops.append(["p_wb", r.choice([None, [2.5], [2.5, 3.0]])])
@@ -480,7 +493,7 @@ MUT_NAMES = {"tr": "Obstacle.translate_rotate", "set_init": "Obstacle.initial_st
              "p_shape": "TrajectoryPrediction.shape=", "p_traj": "TrajectoryPrediction.trajectory=",
              "p_wb": "TrajectoryPrediction.wheelbase_lengths=", "p_asg": "TrajectoryPrediction.lanelet_assignment=",
              "p_tr": "Prediction.translate_rotate"}
-NET_NAMES = {"tr": "LaneletNetwork.translate_rotate", "add": "LaneletNetwork.add_lanelet", "remove": "LaneletNetwork.remove_lanelet",
+NET_NAMES = {"tr": "LaneletNetwork.translate_rotate", "add": "LaneletNetwork.add_lanelet", "add_from": "LaneletNetwork.add_lanelets_from_network", "remove": "LaneletNetwork.remove_lanelet",
              "to2d": "LaneletNetwork.convert_to_2d", "deepcopy": "LaneletNetwork.deepcopy", "pickle": "LaneletNetwork.pickle"}
 LAN_NAMES = {"tr": "Lanelet.translate_rotate", "to2d": "Lanelet.convert_to_2d"}
 CYC_NAMES = {"set_es": "TrafficLightCycle.cycle_elements=", "set_off": "TrafficLightCycle.time_offset=", "set_active": "TrafficLightCycle.active=",
@@ -952,8 +965,29 @@ def gen_net(ctx):
         kinds = ["add", "add", "tr", "tr", "tr", "deepcopy", "pickle", "to2d"]
         if present:
             kinds += ["remove", "remove"]
+        if wrap == "none":
+            kinds += ["add_from"]
         k = r.choice(kinds)
         v += 1
+        if k == "add_from":
+            sps = []
+            for _i in range(r.choice([1, 2, 3])):
+                if present and r.random() < 0.15:
+                    sps.append(g_lanelet(r, r.choice(sorted(present)), allow3d))     # already there: refused, and the loop stops adding
+                else:
+                    sps.append(g_lanelet(r, next_id, allow3d))
+                    next_id += 1
+            ops.append(["add_from", sps])
+            for sp in sps:
+                if sp["id"] in present:
+                    break
+                present[sp["id"]] = sp["z"] is not None
+                seen[sp["id"]] = [v]
+            tree = True
+            ops += queries()
+            if len(ops) >= 12:
+                break
+            continue
         if k == "add":
             if r.random() < 0.1 and present:
                 sp = g_lanelet(r, r.choice(sorted(present)), allow3d)     # duplicate id: refused
@@ -1136,6 +1170,17 @@ def run_net(ctx, case, model=True):
             out = r[1] if r[0] == "ok" else {"err": r[1]}
             if via == "scenario" and scen is not None and r[0] == "ok":
                 out = None   # Scenario.add_objects returns nothing; the duplicate case is not generated through the scenario
+        elif k == "add_from":
+            other = LaneletNetwork.create_from_lanelet_list([b_lanelet(sp) for sp in op[1]], cleanup_ids=False)
+            r = call(nw.add_lanelets_from_network, other)
+            suspended = False
+            if any(sp["z"] is not None for sp in op[1]):
+                ctx.tag("net/3d")
+            rows.mutate("networkIndex", "netAddFromNetwork")
+            m_ops.append(["add_from", [[sp["id"], lan_tok(sp, v)] for sp in op[1]]])
+            out = bool(r[1]) if r[0] == "ok" else {"err": r[1]}
+            if r[0] == "ok" and not r[1]:
+                ctx.tag("net/add-from-refused")
         elif k == "remove":
             lid, rt, via = op[1], op[2], op[3]
             if via == "scenario" and scen is not None:
@@ -1381,7 +1426,7 @@ def run(ctx):
     for p in sorted(glob.glob(os.path.join(CORPUS_DIR, "C11", "*.json"))):
         run_case(ctx, json.load(open(p)))
     weights = [g for g in GENS for _ in range(g[2])]
-    for _ in range(ctx.n(600)):
+    for _ in range(ctx.n(2000)):
         fam, gen, _w = ctx.rng.choice(weights)
         run_case(ctx, gen(ctx))
 
